@@ -672,6 +672,26 @@ pub fn run(ctx: &mut Ctx) {
             }
         }
     }
+    // extreme values of every width: leading byte x all-zero / all-one / ..01 / ..fe remainders
+    for signed in [false, true] {
+        let tyb: u8 = if signed { 0x50 } else { 0x60 };
+        for w in 1..=8usize {
+            for lb in [0x00u8, 0x01, 0x7f, 0x80, 0x81, 0xfe, 0xff] {
+                for (ri, rest) in [vec![0x00u8; w - 1], vec![0xff; w - 1], { let mut r = vec![0x00u8; w - 1]; if let Some(l) = r.last_mut() { *l = 1; } r }, { let mut r = vec![0xffu8; w - 1]; if let Some(l) = r.last_mut() { *l = 0xfe; } r }].into_iter().enumerate() {
+                    k += 1;
+                    if !ctx.mine(k) {
+                        continue;
+                    }
+                    let _ = ri;
+                    let mut lead = vec![tyb | (w as u8 + 1), lb];
+                    lead.extend_from_slice(&rest);
+                    for pos in [Pos::Value, Pos::Status, Pos::Scaler, Pos::GroupNo, Pos::Time] {
+                        ctx.eval(&Probe { pos, lead: lead.clone() });
+                    }
+                }
+            }
+        }
+    }
     // booleans: all 256 bytes
     for b in 0..=255u8 {
         if ctx.mine(b as u64) {
